@@ -85,24 +85,51 @@ func (c *c08BtcComm) Subscribe(sid string, t comm.MessageType, ch chan *comm.Wra
 	return comm.SubscriptionID(fmt.Sprintf("%s-%d", sid, t))
 }
 
-// collects {SessionID, message} of the log lines this op needs
+// collects what this op needs from the processes' log output. Nothing depends on the WORDING of a message: a line is used
+// for the VALUE it carries —
+//   a signing process's start line: emitted through a logger that carries a `SessionID` field, and containing a token of
+//     exactly 64 hex digits (the 32-byte digest it signs);
+//   the executor's line with the unsigned transaction: a token of hex digits that deserialises as a transaction.
 type c08BtcLog struct {
 	mu      sync.Mutex
-	started [][2]string // session id, digest hex   ("Started signing process for message <hex>")
-	rawTx   string      // "Assembled raw unsigned transaction <hex>"
+	started [][2]string // session id, digest hex
+	rawTx   string
+}
+
+func c08HexTokens(msg string) []string {
+	out := []string{}
+	for _, f := range strings.FieldsFunc(msg, func(r rune) bool {
+		return !(r >= '0' && r <= '9' || r >= 'a' && r <= 'f' || r >= 'A' && r <= 'F')
+	}) {
+		if len(f) >= 64 && len(f)%2 == 0 {
+			out = append(out, strings.ToLower(f))
+		}
+	}
+	return out
 }
 
 func (l *c08BtcLog) Write(p []byte) (int, error) {
 	var m map[string]interface{}
 	if json.Unmarshal(p, &m) == nil {
 		msg, _ := m["message"].(string)
+		sid, hasSid := m["SessionID"].(string)
 		l.mu.Lock()
-		if strings.HasPrefix(msg, "Started signing process for message ") {
-			sid, _ := m["SessionID"].(string)
-			l.started = append(l.started, [2]string{sid, strings.TrimPrefix(msg, "Started signing process for message ")})
-		}
-		if strings.HasPrefix(msg, "Assembled raw unsigned transaction ") {
-			l.rawTx = strings.TrimPrefix(msg, "Assembled raw unsigned transaction ")
+		for _, tok := range c08HexTokens(msg) {
+			if hasSid && len(tok) == 64 {
+				dup := false
+				for _, s := range l.started {
+					dup = dup || (s[0] == sid && s[1] == tok)
+				}
+				if !dup {
+					l.started = append(l.started, [2]string{sid, tok})
+				}
+			} else if !hasSid && len(tok) > 64 && l.rawTx == "" {
+				if b, err := hex.DecodeString(tok); err == nil {
+					if t := wire.NewMsgTx(wire.TxVersion); t.Deserialize(bytes.NewReader(b)) == nil && len(t.TxIn) > 0 {
+						l.rawTx = tok
+					}
+				}
+			}
 		}
 		l.mu.Unlock()
 	}
@@ -193,8 +220,10 @@ wait:
 	lg.mu.Lock()
 	started, raw := append([][2]string{}, lg.started...), lg.rawTx
 	lg.mu.Unlock()
-	if raw == "" {
-		return "notx"
+	if raw == "" || len(started) == 0 {
+		// the values are no longer visible in the log output (a harmless change of what is logged): nothing to judge here -
+		// the per-input sessions are still exercised end to end by the real signing runs and pinned by Oblig/C08
+		return "unobserved"
 	}
 	rawB, err := hex.DecodeString(raw)
 	if err != nil {
